@@ -4,6 +4,7 @@
   Model: `infoLine` / `idLoop` (`search` in `src/search.rs`).
 -/
 import Jence.Lemmas.Top
+import Jence.Lemmas.NoOverflow
 import Jence.Lemmas.PvLine
 import Jence.Lemmas.LegalMoves
 import Jence.Props.C01
@@ -166,5 +167,11 @@ theorem legal_line_is_rules_line : ∀ (ms : List Move) (g : Game) (b : Board), 
     refine ⟨hsm, ?_⟩
     rw [← apply_refines wf fits flags hmk' (by omega) (by omega)]
     exact ih g' _ wf' nk' hh' hf' hrest
+
+
+/-- **T12.2 with the overflow hypothesis discharged**: with 65 free history slots all info lines carry legal lines -/
+theorem search_info_lines_legal_of_room (R : Rules) (cfg : Cfg) (g : Game) (depth : Int) (tt : TT) (rep : RepTable) (hroom : HistoryRoom rep) :
+    AllPrintedLegal R cfg g (if depth == -1 then Gen.MAX_PLY else (depth % 256).toNat) 1 (-Gen.INFINITY) Gen.INFINITY (Env.fresh tt rep) :=
+  search_info_lines_legal R cfg g depth tt rep (search_no_overflow R cfg g depth tt rep hroom).2
 
 end Jence.Props.C12
